@@ -98,17 +98,18 @@ theorem getD_drop_one (l : List ℚ) (k : ℕ) : (l.drop 1).getD k 0 = l.getD (k
 
 /-! ### binomial coefficients -/
 
-theorem choose_eq : ∀ n k : ℕ, choose n k = Nat.choose n k
-  | _, 0 => by simp [choose]
-  | 0, k+1 => by simp [choose]
-  | n+1, k+1 => by rw [choose, choose_eq n k, choose_eq n (k+1), Nat.choose_succ_succ]
-
 theorem fact_eq (n : ℕ) : fact n = n.factorial := by
   induction n with
   | zero => rfl
   | succ n ih => rw [fact, ih, Nat.factorial_succ]
 
 theorem fact_pos (n : ℕ) : 0 < fact n := by rw [fact_eq]; exact Nat.factorial_pos n
+
+theorem choose_eq (n k : ℕ) : choose n k = Nat.choose n k := by
+  unfold choose
+  split_ifs with h
+  · rw [fact_eq, fact_eq, fact_eq, Nat.choose_eq_factorial_div_factorial h]
+  · rw [Nat.choose_eq_zero_of_lt (by omega)]
 
 /-- the binomial distribution sums to one -/
 theorem binomPmf_sum (n : ℕ) (p : ℚ) : ∑ k ∈ range (n + 1), binomPmf k n p = 1 := by
@@ -132,7 +133,7 @@ theorem binomPmf_zero_p (k n : ℕ) (hk : k ≤ n) : binomPmf k n 0 = if k = 0 t
   unfold binomPmf
   rw [if_pos hk]
   by_cases h : k = 0
-  · subst h; simp [choose]
+  · subst h; simp [choose_eq]
   · simp [h]
 
 /-! ### hypergeometric rows -/
